@@ -129,6 +129,7 @@ def run_mol(case, ctx):
         if pr.random() < 0.5:
             opts["penalty_terms"]["S^2"] = [0.7, (mol.active_spin / 2) * (mol.active_spin / 2 + 1)]
     n_defl = 0
+    ref_vector = None
     if "deflation" in feats:
         n_defl = pr.randint(1, 2)
         defl = []
@@ -140,14 +141,17 @@ def run_mol(case, ctx):
         # a non-HF determinant with the same electron numbers (interleaved ordering): excite the highest occupied alpha orbital
         v = [0] * mol.n_active_sos
         na, nb = mol.n_active_ab_electrons
-        for k in range(na):
-            v[2 * k] = 1
-        for k in range(nb):
-            v[2 * k + 1] = 1
-        if na >= 1 and 2 * na < mol.n_active_sos:
-            v[2 * (na - 1)] = 0
-            v[2 * na] = 1
+        # a random determinant with the same electron numbers (interleaved ordering), different from Hartree-Fock where possible
+        for _try in range(8):
+            v = [0] * mol.n_active_sos
+            for k in pr.sample(range(mol.n_active_sos // 2), na):
+                v[2 * k] = 1
+            for k in pr.sample(range(mol.n_active_sos // 2), nb):
+                v[2 * k + 1] = 1
+            if any(v[2 * k] == 0 for k in range(na)) or any(v[2 * k + 1] == 0 for k in range(nb)):
+                break
         opts["ref_state"] = v
+        ref_vector = list(v)
     if "ref_circuit" in feats and kind in ("UCCSD", "UpCCGSD", "UCCGD", "HEA"):
         from tangelo.toolboxes.qubit_mappings.statevector_mapping import get_reference_circuit
         with warnings.catch_warnings():
@@ -206,6 +210,14 @@ def run_mol(case, ctx):
                 ok = len(e1) == len(e2) and np.max(np.abs(e1 - e2)) < 1e-7
             ctx.check("solver_hamiltonian_is_molecular_plus_penalty", ok,
                       "the solver's qubit Hamiltonian is not (equivalent to) the molecular Hamiltonian plus the requested penalty terms", dict(base))
+            if ref_vector is not None and kind in ("UCCSD", "UpCCGSD", "UCCGD") and "projective" not in feats and not n_defl:
+                # excitation ansaetze are the identity at zero amplitudes: the energy is that of the requested determinant, read off the
+                # independently built Fock-space Hamiltonian (the override must be the determinant the user named, in his ordering)
+                e0 = solver.energy_estimation([0.0] * nvp)
+                e_det = float(np.real(Hf[fock.index_of(ref_vector), fock.index_of(ref_vector)]))
+                ctx.check("reference_override_is_requested_determinant", abs(e0 - e_det) < 1e-7,
+                          f"with ref_state={ref_vector} and zero amplitudes the energy {e0:.9f} is not the energy {e_det:.9f} of that determinant",
+                          lambda: dict(base, ref_state=ref_vector, energy=e0, determinant_energy=e_det))
         for r in range(2 if ctx.tier == "quick" else 4):
             theta = ansatzlib.rand_params(pr, nvp, pr.choice(["uniform", "uniform", "big", "some_zero", "zeros"]))
             thetas.append(theta)
